@@ -1,6 +1,263 @@
-import Asts.Spec.Sync
+import Asts.Proofs.SY_a_C10pods
+import Asts.Proofs.SY_a_Headlines
+import Asts.Gen.Sites
 
-/-! # C10 — property theorems (under construction) -/
+/-! # C10 — the controller touches only what it owns; adoption needs a fresh confirmation
+
+Property theorems only; the lemmas live in `Asts/Proofs/SY_a_*.lean`. `syncF` (`Model/Sync.lean`) is the model of one whole
+`StatefulSetController.sync` + `UpdateStatefulSet`, tied to the Go code by the `sync` engine; `C10pods`, `C10revs`, `C10set`
+are the monitors of `Spec/Sync.lean` that the engine evaluates on the real code's call log. All theorems hold for every
+hashing function, every revision store, every pod list and every fault plan; there is no size bound.
+
+The monitors read the call log as strings (`verb:resource:name`, parsed by `parseEntry` = `String.splitOn ":"`). The bridge
+is `Asts.SYa.splitOn_colon` (`Proofs/SY_a_Strings.lean`): `splitOn ":"` is `List.splitOnP (· == ':')` on the characters, so
+`parseEntry ("<verb>:<res>:" ++ name)` is `(verb, res, name)` when the name contains no colon and the degenerate entry
+`(whole string, "", "")` when it does — no hypothesis on names is needed.
+
+Hypotheses, and why each is needed (each excluded point was evaluated on the model: the monitor is false there):
+* `StoreNamesOk i` — names are unique in the revision store (one namespace of the API). `C10revs` looks a written revision
+  up by name in the input store; with two stored revisions of one name (a foreign one first) it finds the wrong one.
+* `PodsWf i` for `C10pods`:
+  `names` — pod names are unique (the monitor looks a patched pod up by name);
+  `ordOfName` — the ordinal recorded for a pod is the one its name shows (the model carries both; a foreign pod named
+  `web-2` whose ordinal field says 7 does not block the create of `web-2`);
+  `canonical` — a pod the set may claim has its canonical name. This one excludes a real behaviour of the code
+  (`exQuirk` below, confirmed on the Go code by the engine): a claimed pod with a zero-padded name `web-03` makes
+  `updateIdentity` rename its copy and the controller issues `Update` for `web-3`, which may be a pod controlled by
+  somebody else (a real API server rejects that Update on uid / resourceVersion; the fake clientset accepts it).
+
+"Objects read from caches are left unmodified" is Go aliasing, which a pure model cannot exhibit: the `sync` engine
+deep-compares every cache object before and after each sync (`C10cache`, field `mut`); it is monitored, not proved. -/
 namespace Asts.C10
+open Asts Asts.SYa
+
+/-! ## (1) the decision table of `claimDecision` (`ClaimObject`) -/
+
+theorem keep_iff (setDeleting : Bool) (c : CPod) :
+    claimDecision setDeleting c = .keep ↔ c.owner = .self ∧ c.selMatch = true ∧ c.member = true :=
+  claimDecision_keep_iff setDeleting c
+
+theorem adopt_iff (setDeleting : Bool) (c : CPod) :
+    claimDecision setDeleting c = .adopt ↔
+      c.owner = .none ∧ c.selMatch = true ∧ c.member = true ∧ c.pod.terminating = false ∧ setDeleting = false :=
+  claimDecision_adopt_iff setDeleting c
+
+theorem release_iff (setDeleting : Bool) (c : CPod) :
+    claimDecision setDeleting c = .release ↔
+      c.owner = .self ∧ ¬(c.selMatch = true ∧ c.member = true) ∧ setDeleting = false :=
+  claimDecision_release_iff setDeleting c
+
+/-- `ignore` in every other case -/
+theorem ignore_iff (setDeleting : Bool) (c : CPod) :
+    claimDecision setDeleting c = .ignore ↔
+      ¬(c.owner = .self ∧ c.selMatch = true ∧ c.member = true) ∧
+      ¬(c.owner = .none ∧ c.selMatch = true ∧ c.member = true ∧ c.pod.terminating = false ∧ setDeleting = false) ∧
+      ¬(c.owner = .self ∧ ¬(c.selMatch = true ∧ c.member = true) ∧ setDeleting = false) :=
+  claimDecision_ignore_iff setDeleting c
+
+/-- a pod controlled by another owner is ignored whatever else is true of it -/
+theorem foreign_pod_ignored (setDeleting : Bool) (c : CPod) (h : c.owner = .other) :
+    claimDecision setDeleting c = .ignore :=
+  claimDecision_other setDeleting c h
+
+/-! ## (2) who is treated as part of the set -/
+
+/-- every pod on the claimed list of `claimPodsF` is a pod of the input whose labels match and whose name is `S-<ordinal>`,
+    and either it is already controlled by the set, or it was unowned, not terminating, the set not being deleted, and
+    its adoption patch went through: an unfaulted `patch:pod:<name>` stands in the part of the log this pass appended.
+    Never a pod controlled by another owner. -/
+theorem claimed_only_own_or_adopted (plan : List Fault) (setDeleting : Bool) (fresh : Fresh) (pods : List CPod) (tr : Tr) :
+    ∀ c ∈ (claimPodsF plan setDeleting fresh pods tr).claimed,
+      c ∈ pods ∧ c.owner ≠ .other ∧ c.selMatch = true ∧ c.member = true ∧
+      (c.owner = .self ∨
+        (c.owner = .none ∧ c.pod.terminating = false ∧ setDeleting = false ∧
+          ∃ pre post, (claimPodsF plan setDeleting fresh pods tr).tr.log = tr.log ++ pre ++ s!"patch:pod:{c.name}" :: post ∧
+            look plan s!"patch:pod:{c.name}" (occIn (tr.log ++ pre) s!"patch:pod:{c.name}") = none)) :=
+  claimPodsF_claimed plan setDeleting fresh pods tr
+
+/-! ## (3) adoption needs a fresh confirmation; (4) a release is a patch -/
+
+/-- the calls of the claim pass are the rendering (`CEv.key`) of an event list in which
+    * every event is the uncached read of the set (`get:set`) or the owner-reference patch (`patch:pod:<name>`) of a pod of
+      the input whose decision was release or adopt,
+    * the uncached read is issued at most once,
+    * every patch of an unowned pod stands after that read, the read was not faulted, and it found the set present, with
+      the cached uid, and without a deletion timestamp. -/
+theorem adoption_confirmed (plan : List Fault) (setDeleting : Bool) (fresh : Fresh) (pods : List CPod) (tr : Tr) :
+    ∃ evs : List CEv,
+      (claimPodsF plan setDeleting fresh pods tr).tr.log = tr.log ++ evs.map CEv.key ∧
+      (∀ e ∈ evs, e = .getSet ∨
+        ∃ c ∈ pods, e = .patch c ∧ (claimDecision setDeleting c = .release ∨ claimDecision setDeleting c = .adopt)) ∧
+      evs.count .getSet ≤ 1 ∧
+      ∀ pre c post, evs = pre ++ .patch c :: post → c.owner = .none →
+        ∃ p1 p2, pre = p1 ++ .getSet :: p2 ∧
+          look plan "get:set" (occIn (tr.log ++ p1.map CEv.key) "get:set") = none ∧
+          fresh.gone = false ∧ fresh.uidOk = true ∧ fresh.deleting = false :=
+  claimPodsF_calls plan setDeleting fresh pods tr
+
+/-- a release is a patch, never a delete: everything the claim pass appends to the log is `get:set` or
+    `patch:pod:<name of an input pod that is not controlled by another owner>` -/
+theorem release_is_a_patch (plan : List Fault) (setDeleting : Bool) (fresh : Fresh) (pods : List CPod) (tr : Tr) :
+    ∃ ext, (claimPodsF plan setDeleting fresh pods tr).tr.log = tr.log ++ ext ∧
+      ∀ e ∈ ext, e = "get:set" ∨ ∃ c ∈ pods, e = s!"patch:pod:{c.name}" ∧ c.owner ≠ .other ∧
+        (claimDecision setDeleting c = .release ∨ claimDecision setDeleting c = .adopt) :=
+  claimPodsF_appends plan setDeleting fresh pods tr
+
+/-- the same confirmation guards the adoption of ControllerRevisions: the calls of the adoption phase are, in this order,
+    listing and label-sync updates of listed marker-carrying revisions, then the uncached read of the set, then adoption
+    patches of listed orphans; a patch is issued only if that read was not faulted and found the set present, with the
+    cached uid and without a deletion timestamp, and the cached set is not being deleted -/
+theorem revision_adoption_confirmed (plan : List Fault) (setDeleting : Bool) (fresh : Fresh) (s : RevSt) :
+    ∃ L1 L2 : List String,
+      (adoptOrphanRevisionsF plan setDeleting fresh s).1.tr.log = s.tr.log ++ L1 ++ L2 ∧
+      (∀ e ∈ L1, e = "list:revs" ∨ ∃ r ∈ listRevisions s.store, r.marker = true ∧ e = s!"update:rev:{r.name}") ∧
+      (L2 = [] ∨ ∃ L2', L2 = "get:set" :: L2' ∧
+        (∀ e ∈ L2', ∃ r ∈ listRevisions s.store, r.owner = .none ∧ e = s!"patch:rev:{r.name}") ∧
+        (L2' ≠ [] → look plan "get:set" (occIn (s.tr.log ++ L1) "get:set") = none ∧
+          fresh.gone = false ∧ fresh.uidOk = true ∧ fresh.deleting = false ∧ setDeleting = false)) :=
+  adoptF_confirmed plan setDeleting fresh s
+
+/-! ## (5) ControllerRevisions of another owner are not on the working list -/
+
+theorem listed_not_foreign (store : List Rev) : ∀ r ∈ listRevisions store, r.owner ≠ .other :=
+  listRevisions_not_other store
+
+theorem listed_names_distinct (store : List Rev) : ((listRevisions store).map (·.name)).Nodup :=
+  listRevisions_nodup store
+
+/-- the list the reconcile works with (`sortRevs (listRevisions store)`): stored revisions that match the selector or carry
+    the upgrade marker, none controlled by another owner, each name once -/
+theorem working_list (store : List Rev) :
+    (∀ r ∈ sortRevs (listRevisions store), r.owner ≠ .other ∧ r ∈ store ∧ (r.selMatch = true ∨ r.marker = true)) ∧
+    ((sortRevs (listRevisions store)).map (·.name)).Nodup :=
+  sorted_listing_spec store
+
+/-- `nextRevision` counts only revisions of the list it is given -/
+theorem nextRevision_counts_listed (sorted : List Rev) :
+    nextRevision sorted = 1 ∨ ∃ r ∈ sorted, nextRevision sorted = r.number + 1 :=
+  nextRevision_mem sorted
+
+/-- `getRevisionsF` renumbers only a revision of the list it is given, and leaves owner, labels, data of every stored
+    revision alone (the store afterwards: numbers changed, or one fresh revision of this set added under a free name) -/
+theorem getRevisions_touches_listed (h : Hashing) (plan : List Fault) (template cur : String) (cc0 : Int)
+    (revs : List Rev) (s : RevSt) :
+    Resolved s.store (getRevisionsF h plan template cur cc0 revs s).1.store ∧
+    Ext (GetRevEntry revs) s.tr.log (getRevisionsF h plan template cur cc0 revs s).1.tr.log :=
+  getRevisionsF_spec h plan template cur cc0 revs s
+
+/-- `truncateF` deletes only revisions of the list it is given that this set controls -/
+theorem truncate_deletes_own_listed (plan : List Fault) (limit : Option Int) (podRevs : List String) (revs : List Rev)
+    (cur upd : Rev) (s : RevSt) :
+    (∀ x ∈ (truncateF plan limit podRevs revs cur upd s).1.store, x ∈ s.store) ∧
+    Ext (fun e => ∃ r ∈ revs, r.owner = .self ∧ e = s!"delete:rev:{r.name}") s.tr.log
+      (truncateF plan limit podRevs revs cur upd s).1.tr.log :=
+  truncateF_spec plan limit podRevs revs cur upd s
+
+/-- every entry of the call log of a whole sync, classified; `st1` is the revision store after the adoption phase (the
+    input store with some orphans adopted and some marker-carrying revisions label-synced) -/
+theorem sync_log_classified (h : Hashing) (i : SyncIn) (plan : List Fault) :
+    ∃ st1 : List Rev,
+      (∃ g : Rev → Rev, (∀ x, AdoptG (listRevisions i.store) x (g x)) ∧ st1 = i.store.map g) ∧
+      (i.view.deleting = true → st1 = i.store) ∧
+      (∃ st2, Resolved st1 st2 ∧ ∀ x ∈ (syncF h i plan).store, x ∈ st2) ∧
+      ∀ e ∈ (syncF h i plan).log,
+        PreEntry i st1 e ∨ ActEntry i plan (syncF h i plan).claimed (syncF h i plan).acts e :=
+  (syncF_shape h i plan).main
+
+/-! ## (6) the monitors are true on the model -/
+
+/-- **C10, pods**: the monitor `C10pods` holds on the model's output for every hashing, store, pod list and fault plan.
+    `Prop` reading: an adoption patch targets an unowned, matching, member, non-terminating pod of a set that is not being
+    deleted, after an unfaulted uncached read that found the same uid and no deletion timestamp; a release patch targets a
+    pod this set controls that no longer matches; every pod delete / update that names a pod of the snapshot names a pod
+    this set controls or adopted earlier in this sync by an unfaulted patch. -/
+theorem C10_pods (h : Hashing) (i : SyncIn) (plan : List Fault) (wf : PodsWf i) :
+    C10pods i plan (syncF h i plan).observe = true :=
+  C10pods_holds h i plan wf
+
+/-- **C10, revisions**: no write (other than a create) names a stored revision controlled by another owner -/
+theorem C10_revs (h : Hashing) (i : SyncIn) (plan : List Fault) (hnd : StoreNamesOk i) :
+    C10revs i (syncF h i plan).observe = true :=
+  C10revs_holds h i plan hnd
+
+/-- **C10, the set**: the only call on the set itself, apart from the status update, is the uncached read -/
+theorem C10_set (h : Hashing) (i : SyncIn) (plan : List Fault) :
+    C10set (syncF h i plan).observe = true :=
+  C10set_holds h i plan
+
+/-! ## (7) the write sites of the Go sources (inventory regenerated from /repo on every check) -/
+
+def inPkg (pkg file : String) : Bool := (pkg.toList ++ ['/']).isPrefixOf file.toList
+
+/-- in the controller packages the only write verb on `StatefulSets` is `UpdateStatus` -/
+theorem set_written_only_through_status :
+    ∀ s ∈ Asts.Gen.writeSites,
+      (inPkg "pkg/controller/statefulset" s.1 || inPkg "pkg/third_party/k8s" s.1) = true →
+      s.2.2.1 = "StatefulSets" → s.2.2.2 = "UpdateStatus" := by decide
+
+/-- non-vacuity of the above: there is such a site -/
+example : ∃ s ∈ Asts.Gen.writeSites,
+    (inPkg "pkg/controller/statefulset" s.1 || inPkg "pkg/third_party/k8s" s.1) = true ∧
+    s.2.2.1 = "StatefulSets" ∧ s.2.2.2 = "UpdateStatus" := by decide
+
+/-! ## non-vacuity
+
+`exW`: set `web`, 4 replicas. Pods: `web-0` controlled and matching (kept), `web-1` an orphan (adopted), `web-5`
+controlled but no longer matching (released), `web-3` controlled by another owner (ignored — and so `create:pod:web-3`
+answers AlreadyExists and the sync ends there). Revisions: `web-a` own, `web-b` an orphan (adopted), `web-c` another owner's. -/
+private def exH : Hashing := { nameOf := fun d c => s!"web-{d}{c}", hashNumOf := fun _ _ => none }
+private def exPod (id : Nat) (ord : Int) : Pod :=
+  { id := id, ord := ord, phase := .running, ready := true, terminating := false, rev := "web-a", idOk := true, stOk := true }
+private def exW : SyncIn :=
+  { setName := "web", paused := false, selectorOk := true
+    view := { replicas := some 4, slots := [], parallel := true, strat := .rolling, ru := some (some 0), deleting := false,
+              generation := 1, stCurrentReplicas := 4 }
+    stored := {}, collisionCount := none, historyLimit := some 10, template := "a"
+    fresh := { gone := false, uidOk := true, deleting := false }
+    store := [{ name := "web-a", number := 2, ctime := 0, data := "a", hashNum := none, owner := .self, selMatch := true, marker := false },
+              { name := "web-b", number := 1, ctime := 0, data := "b", hashNum := none, owner := .none, selMatch := true, marker := false },
+              { name := "web-c", number := 3, ctime := 0, data := "c", hashNum := none, owner := .other, selMatch := true, marker := false }]
+    pods := [ { name := "web-0", pod := exPod 0 0, owner := .self, selMatch := true, member := true },
+              { name := "web-1", pod := exPod 1 1, owner := .none, selMatch := true, member := true },
+              { name := "web-5", pod := exPod 2 5, owner := .self, selMatch := false, member := true },
+              { name := "web-3", pod := exPod 3 3, owner := .other, selMatch := true, member := true } ] }
+
+example : StoreNamesOk exW := by unfold StoreNamesOk; decide
+example : PodsWf exW := PodsWf.of_canonical (by decide) (by decide)
+example : (syncF exH exW []).log =
+    ["list:revs", "list:revs", "get:set", "patch:rev:web-b", "get:set", "patch:pod:web-1", "patch:pod:web-5",
+     "list:revs", "list:revs", "create:pod:web-2", "create:pod:web-3"] := by decide
+example : (syncF exH exW []).claimed.map (·.name) = ["web-0", "web-1"] := by decide
+
+/-! the hypothesis `PodsWf.canonical` is necessary — the upstream quirk, confirmed on the Go code with the `sync` engine
+    (case line
+    `0|1|4||P|R|0|0|1|0,0,0,0,,,0|nil|10|A|1|0|web-698d87cb6f:1:0:A:698d87cb6f:s:1:0|web-0:0:1:R:1:0:web-698d87cb6f:1:s:1;web-03:3:1:R:1:0:web-698d87cb6f:0:s:1;web-3:3:1:R:1:0:web-698d87cb6f:1:o:1|A:0=web-698d87cb6f:-,A:1=web-698d87cb6d:-,A:2=web-698d87cb75:-,A:3=web-698d87cb74:-,A:4=web-698d87cb69:-,A:5=web-698d87cb68:-|`,
+    `diff 0`, `mon C10.pods`): `web-03` is controlled by the set and parses to ordinal 3, `web-3` is controlled by another
+    owner; the identity fix renames the copy of `web-03` and the Update call is addressed to `web-3`. -/
+private def exQuirk : SyncIn :=
+  { exW with
+    store := [{ name := "web-a", number := 1, ctime := 0, data := "a", hashNum := none, owner := .self, selMatch := true, marker := false }]
+    pods := [ { name := "web-0", pod := exPod 0 0, owner := .self, selMatch := true, member := true },
+              { name := "web-03", pod := { exPod 1 3 with idOk := false }, owner := .self, selMatch := true, member := true },
+              { name := "web-3", pod := exPod 2 3, owner := .other, selMatch := true, member := true } ] }
+
+example : C10pods exQuirk [] (syncF exH exQuirk []).observe = false := by
+  have hlog : (syncF exH exQuirk []).log =
+      ["list:revs", "list:revs", "list:revs", "list:revs", "create:pod:web-1", "create:pod:web-2"] ++
+        "update:pod:web-3" :: ["updatestatus"] := by decide
+  cases hc : C10pods exQuirk [] (syncF exH exQuirk []).observe with
+  | false => rfl
+  | true =>
+    exfalso
+    rw [C10pods_eq, List.all_eq_true] at hc
+    have hmem := (mem_annotate [] (syncF exH exQuirk []).observe.log _).2 ⟨_, _, _, hlog, rfl⟩
+    have hbad := hc _ hmem
+    rw [show "update:pod:web-3" = "update:pod:" ++ "web-3" by decide,
+      parseEntry_pre3 pre_update_pod "web-3" (by decide)] at hbad
+    simp [podCheck, exQuirk, exW] at hbad
+
+/-! `StoreNamesOk` is necessary for `C10revs`: two stored revisions named `a`, the first controlled by another owner and
+    listed only by its marker, the second an orphan matching the selector. The orphan is listed and adopted
+    (`patch:rev:a`), and the monitor, looking `a` up by name, finds the foreign one. (Evaluated: `C10revs` is `false`.) -/
 
 end Asts.C10
